@@ -130,7 +130,7 @@ func (n *Net) DialOwner(ctx context.Context, network, address, owner string) (ne
 	// connection establishment takes one round trip
 	lat := 2 * n.latency()
 	if lat > 0 {
-		tm := time.NewTimer(lat)
+		tm := quietTimer(lat)
 		select {
 		case <-tm.C:
 		case <-ctx.Done():
@@ -231,7 +231,7 @@ func (c *Conn) Read(b []byte) (int, error) {
 				c.mu.Unlock()
 				return 0, opErr("read", c.remote, timeoutError{})
 			}
-			tm = time.NewTimer(d)
+			tm = quietTimer(d)
 			tc = tm.C
 		}
 		if c.rwait == nil {
@@ -275,7 +275,7 @@ func (c *Conn) Write(b []byte) (int, error) {
 		for {
 			var tc <-chan time.Time
 			if !c.wdl.IsZero() {
-				tc = time.After(time.Until(c.wdl))
+				tc = quietTimer(time.Until(c.wdl)).C
 			}
 			if c.rwait == nil {
 				c.rwait = make(chan struct{})
